@@ -77,16 +77,46 @@ def _enc_csr(shape, indptr, indices, data):
 
 
 def _mk_csr(desc):
+    """The matrix handed to the implementation: the stored values in the dtype of the description (bool, narrow
+    and wide integers, float32, float64); the Lean side always receives the values themselves."""
     shape = tuple(desc['shape'])
-    a = sparse.csr_matrix((np.array(desc['data'], dtype=float), np.array(desc['indices'], dtype=np.int32),
-                           np.array(desc['indptr'], dtype=np.int32)), shape=shape)
+    data = np.array(desc['data'], dtype=float).astype(np.dtype(desc.get('dtype', 'float64')))
+    a = sparse.csr_matrix((data, np.array(desc['indices'], dtype=np.int32), np.array(desc['indptr'], dtype=np.int32)),
+                          shape=shape)
     return a
 
 
-def _csr_desc(a):
+def _csr_desc(a, dtype='float64'):
     a = sparse.csr_matrix(a)
     return {'shape': [int(a.shape[0]), int(a.shape[1])], 'indptr': [int(x) for x in a.indptr],
-            'indices': [int(x) for x in a.indices], 'data': [float(x) for x in a.data]}
+            'indices': [int(x) for x in a.indices], 'data': [float(x) for x in a.data], 'dtype': dtype}
+
+
+DTYPES = ['bool', 'int8', 'uint8', 'int16', 'int32', 'int64', 'float32', 'float64']
+
+
+def _dtypes_for(values):
+    """the dtypes that hold these stored values exactly"""
+    vals = [float(v) for v in values]
+    out = ['float64']
+    if all(float(np.float32(v)) == v for v in vals):
+        out.append('float32')
+    if all(v == int(v) for v in vals):
+        lo, hi = min(vals, default=0), max(vals, default=0)
+        out += ['int64', 'int32']
+        for name in ('int16', 'int8', 'uint8'):
+            info = np.iinfo(name)
+            if info.min <= lo and hi <= info.max:
+                out.append(name)
+        if all(v == 1 for v in vals):
+            out.append('bool')
+    return out
+
+
+def _pick_dtype(rng, values, p=0.5):
+    if rng.random() >= p:
+        return 'float64'
+    return rng.choice(_dtypes_for(values))
 
 
 def _rands(seed, k=N_RANDS):
@@ -439,8 +469,8 @@ def gen_modularity(ctx):
     quick = ctx.quick
     descs = []
 
-    def add(a, labels, labels_col=None, weights='degree', res=1, dense=False):
-        d = _csr_desc(a)
+    def add(a, labels, labels_col=None, weights='degree', res=1, dense=False, dtype=None):
+        d = _csr_desc(a, _pick_dtype(rng, sparse.csr_matrix(a).data, 0.4) if dtype is None else dtype)
         d.update(labels=[int(x) for x in labels], labels_col=None if labels_col is None else [int(x) for x in labels_col],
                  weights=weights, resolution=res, dense=dense)
         descs.append(d)
@@ -528,6 +558,21 @@ def gen_modularity(ctx):
     add(dup, [0, 0])
     add(dup, [0, 1], res=0.5)
     ctx.count('mod:degenerate', 30)
+    # the dtypes of the library's own data sets and of user matrices: bool, narrow integers (values that overflow
+    # when added in their own dtype), float32
+    for _ in range(40 if quick else 300):
+        n = rng.randint(2, 9)
+        flavour = rng.choice(['bool', 'bool', 'uint8', 'int8', 'int16', 'int32', 'float32'])
+        es = graphs.random_edges(rng, n, rng.choice([0.4, 0.7]), directed=rng.random() < 0.6, loops=rng.random() < 0.3)
+        if not es:
+            continue
+        wts = {'bool': [1], 'uint8': [200, 130, 255, 128, 1, 7], 'int8': [100, 127, 64, 90, 1],
+               'int16': [20000, 30000, 1, 300], 'int32': [1, 2, 70000, 5], 'float32': [0.5, 1.5, 3, 0.25]}[flavour]
+        a = _csr_from(n, es, [rng.choice(wts) for _ in es])
+        k = rng.randint(1, max(1, n // 2))
+        add(a, [rng.randrange(k) for _ in range(n)], weights=rng.choice(['degree', 'degree', 'uniform']),
+            res=rng.choice(RESOLUTIONS), dtype=flavour)
+        ctx.count('mod:dtype:' + flavour)
     return descs
 
 
@@ -606,8 +651,8 @@ def exact_domain(a, kind, res, fb):
     return max(k + 1, r + 2 * s) <= 19
 
 
-def _fit_desc(algo, a, kind, res, tol_o, tol_a, n_agg, fb, exact, seed):
-    d = _csr_desc(a)
+def _fit_desc(algo, a, kind, res, tol_o, tol_a, n_agg, fb, exact, seed, dtype='float64'):
+    d = _csr_desc(a, dtype)
     d.update(f=algo, kind=kind, resolution=res, tol_optimization=tol_o, tol_aggregation=tol_a, n_aggregations=n_agg,
              force_bipartite=fb, exact=bool(exact), seed=seed)
     return d
@@ -625,14 +670,16 @@ def gen_fits(ctx):
     quick = ctx.quick
     descs = []
 
-    def both(a, kind, res, fb=False, exact=None, tol_o=None, tol_a=None, n_agg=None):
+    def both(a, kind, res, fb=False, exact=None, tol_o=None, tol_a=None, n_agg=None, dtype=None):
         ex = exact_domain(a, kind, res, fb) if exact is None else exact
+        dt = _pick_dtype(rng, sparse.csr_matrix(a).data) if dtype is None else dtype
         tol_o = rng.choice(TOLS if ex else TOLS_INEXACT) if tol_o is None else tol_o
         tol_a = rng.choice(TOLS) if tol_a is None else tol_a
         n_agg = rng.choice([-1, -1, -1, 1, 2]) if n_agg is None else n_agg
         for algo in ('Louvain', 'Leiden'):
-            descs.append(_fit_desc(algo, a, kind, res, tol_o, tol_a, n_agg, fb, ex, rng.randrange(1, 10 ** 6)))
+            descs.append(_fit_desc(algo, a, kind, res, tol_o, tol_a, n_agg, fb, ex, rng.randrange(1, 10 ** 6), dt))
         ctx.count('fit:' + ('exact' if ex else 'spec-only'))
+        ctx.count('fit:dtype:' + dt)
 
     # all undirected graphs on 4 nodes (with loops sampled): weights forced to a power-of-two total
     g4 = list(graphs.all_undirected(4, loops=True))
@@ -697,6 +744,41 @@ def gen_fits(ctx):
             continue
         b = _csr_from(nr, es, [rng.choice([1, 2, 0.5, 3.3]) for _ in es], m=nc)
         both(b, rng.choice(KINDS), rng.choice(FIT_RES), fb=(nr == nc), exact=False)
+    # dtype stream: bool adjacency (directed with reciprocal pairs, undirected, bipartite), narrow integers whose sums
+    # overflow in their own dtype, int32, float32 — the symmetrised adjacency and the node weights must both be
+    # computed on the values, whatever the container's dtype (spec line: objective on the ORIGINAL values)
+    for _ in range(60 if quick else 500):
+        flavour = rng.choice(['bool-directed', 'bool-directed', 'bool-undirected', 'bool-bipartite', 'uint8', 'uint8',
+                              'int8', 'int16', 'int32', 'float32', 'uint8-bipartite'])
+        kind = rng.choice(KINDS)
+        res = rng.choice([1, 1, 0.5, 2])
+        if flavour.endswith('bipartite'):
+            nr, nc = rng.randint(2, 6), rng.randint(2, 6)
+            es = graphs.random_edges(rng, nr, rng.choice([0.4, 0.7]), m=nc)
+            if not es:
+                continue
+            wts = [1] if flavour.startswith('bool') else [200, 130, 255, 1]
+            b = _csr_from(nr, es, [rng.choice(wts) for _ in es], m=nc)
+            both(b, kind, res, fb=(nr == nc), dtype=flavour.split('-')[0])
+        else:
+            n = rng.randint(3, 12)
+            if flavour == 'bool-undirected':
+                es = graphs.random_edges(rng, n, rng.choice([0.3, 0.6]), directed=False)
+            else:
+                # dense enough for reciprocal pairs i -> j, j -> i
+                es = graphs.random_edges(rng, n, rng.choice([0.4, 0.7]), directed=True, loops=rng.random() < 0.2)
+            if not es:
+                continue
+            wts = {'bool': [1], 'uint8': [200, 130, 255, 128, 1], 'int8': [100, 127, 64, 90, 1],
+                   'int16': [20000, 30000, 1], 'int32': [1, 2, 70000], 'float32': [0.5, 1.5, 3]}[flavour.split('-')[0]]
+            if flavour == 'bool-undirected':
+                w = [1] * len(es)
+            elif rng.random() < 0.5:
+                w = graphs.sym_weights(rng, es, wts)      # reciprocal pairs carry equal weights: x + x overflows
+            else:
+                w = [rng.choice(wts) for _ in es]
+            both(_csr_from(n, es, w), kind, res, dtype=flavour.split('-')[0])
+        ctx.count('fit:dtype-stream:' + flavour)
     # degenerate stream
     one = _csr_from(2, [(0, 1), (1, 0)], [1, 1])
     both(one, 'dugue', 1, exact=True)
